@@ -3,10 +3,13 @@ Theorems (Props/C08.v): normal form / declarative shape of every get_n_best resu
 checker (sel_shape_ok <-> sel_shape), seat accounting of HighestAverages.evaluate, and the seat-count theorems of
 largest remainder (C02) and transferable vote (C04).  This check runs EVERY evaluator configuration of
 harness/evalreg.py (all public selector / distributor classes that can be built without further components are
-covered; the rest is listed in the evidence) on random profiles with positive total weight and 1 <= n <= number of
+covered; the rest is listed in the evidence) plus the distributor form of allocated score (registered here) on random
+profiles AND on symmetrised profiles (orbit sums under a candidate permutation: exact ties of 2..4 candidates at every
+stage of a neutral rule - the region the tie clauses speak about) with positive total weight and 1 <= n <= number of
 candidates, and judges each outcome: selections by the EXTRACTED verified checker, distributions by the declarative
 clauses, exceptions by the declared-refusal rule for the families the property names."""
 import inspect
+import math
 import common
 from common import cname, cnum, sx
 from units import BLOCK
@@ -17,10 +20,14 @@ LEVEL = 'proof'
 TIE = {'core.get_n_best / Plurality and every evaluator ending in it; HighestAverages; LargestRemainder; TransferableVote*':
            'models shared with C09 / C01 / C02 / C03 (correspondence there); shape theorems here',
        'every other evaluator of harness/evalreg.py': 'outputs judged by the extracted verified checker sel_shape_ok (selections) / declarative clauses (distributions)'}
-RULE = ('sweep: for each of the 60 evaluator configurations (simple / approval / ranked incl. shared ranks / score / pairwise votes) random profiles '
+RULE = ('sweep: for each of the 65 evaluator configurations (63 of harness/evalreg.py + AllocatedScoreDistributor hare / droop; simple / approval / ranked incl. shared ranks / score / pairwise votes) random profiles '
         'with positive total weight, every n in 1..#candidates (sampled); selection results are encoded and judged by the extracted checker '
         '(exactly n entries, distinct candidates of the votes, a tie repeated fewer times than it has members and disjoint from the elected), '
-        'distributions by: positive integer seats, candidate or tie keys, sum = n (highest averages, largest remainder, STV distributor); an '
+        'distributions by: positive integer seats, candidate or tie keys, a tie key standing for fewer seats than it has members, sum = n '
+        '(highest averages, largest remainder, STV distributor, allocated score distributor); sym-sweep: the same judgement on profiles closed '
+        'under a random candidate permutation (one or two cycles of 2..4 candidates, ballots of the orbit merged), so that exact ties among k '
+        'candidates meet k, fewer and more open seats; a rejected selection matches a known finding only in its recorded shape (one tie listed '
+        'once for r >= 2 seats with more than r members: allocated score; fewer than n distinct plain candidates: Bucklin / Oklahoma / STAR); an '
         'exception other than VotingSystemError / NotImplementedError is a violation for the families the property names (plurality, highest '
         'averages, largest remainder, transferable vote, Schulze, Copeland, minimax, positional, approval, score). model-shape: the checker on the '
         'extracted get_n_best model (sanity of the wire encoding). non-trivial = result contains a tie or a refusal; distinct by case hash')
@@ -30,7 +37,93 @@ PARTIAL = ['shape of evaluators without a Coq model (Condorcet family beyond Cop
            'BiproportionalEvaluator by C07, open-list evaluators by C16, seeded random selectors by C18']
 TRUSTED = []
 LISTED = {'plurality', 'highest_averages', 'largest_remainder', 'transferable_vote', 'schulze', 'copeland', 'minimax', 'positional', 'approval', 'score'}
-SUM_EXACT = ('ha_', 'lr_', 'stv_dist')       # distributors that must hand out exactly n seats
+SUM_EXACT = ('ha_', 'lr_', 'stv_dist', 'allocated_score_dist')       # distributors that must hand out exactly n seats
+
+
+_REG = None
+
+
+def registry():
+    """the shared configurations of harness/evalreg.py + the ones only this check sweeps (the distributor form of
+    allocated score: a public distributor class of evaluate.cardinal that needs no further component)"""
+    global _REG
+    if _REG is None:
+        import votelib.evaluate.cardinal as card
+        _REG = dict(evalreg.registry())
+        for qn in ('hare', 'droop'):
+            nm = 'allocated_score_dist_' + qn
+            _REG[nm] = dict(name=nm, vtype='score', kind='dist', make=(lambda qn=qn: card.AllocatedScoreDistributor(qn)), family=None,
+                            scale_free=(qn != 'droop'), seats=True, max_k=1000, det=True, needs=None, exact=True, min_cands=1)
+    return _REG
+
+
+def rename_profile(vtype, prof, f):
+    """image of a JSON profile under the candidate renaming f (equal ballots merged, weights added)"""
+    out = {}
+    for key, w in prof:
+        if vtype == 'simple':
+            k = f(key)
+        elif vtype == 'approval':
+            k = tuple(sorted(f(c) for c in key))
+        elif vtype == 'ranked':
+            k = tuple(tuple(sorted(f(c) for c in it)) if isinstance(it, list) else f(it) for it in key)
+        elif vtype == 'score':
+            k = tuple(sorted((f(c), sc) for c, sc in key))
+        elif vtype == 'pairwise':
+            k = (f(key[0]), f(key[1]))
+        else:
+            raise ValueError(vtype)
+        out[k] = out.get(k, 0) + common.q(w)
+    return out
+
+
+def unkey(vtype, k):
+    if vtype == 'simple':
+        return k
+    if vtype == 'ranked':
+        return [list(it) if isinstance(it, tuple) else it for it in k]
+    if vtype == 'score':
+        return [list(x) for x in k]
+    return list(k)
+
+
+def symmetrise(rng, vtype, prof):
+    """orbit sum of a profile under a random candidate permutation sigma (one or two disjoint cycles): the result is
+    invariant under sigma, so the candidates of one cycle are indistinguishable - exact ties among 2..m candidates at
+    every stage of every neutral rule, which is where the tie clauses of the property live"""
+    cands = evalreg.candidates_of(vtype, prof)
+    if len(cands) < 2:
+        return prof
+    pool = cands[:]
+    rng.shuffle(pool)
+    k1 = rng.randint(2, min(len(pool), 4))
+    cycles = [pool[:k1]]
+    rest = pool[k1:]
+    if len(rest) >= 2 and rng.random() < 0.3:
+        cycles.append(rest[:rng.randint(2, min(len(rest), 3))])
+    sigma = {}
+    order = 1
+    for cyc in cycles:
+        for i, c in enumerate(cyc):
+            sigma[c] = cyc[(i + 1) % len(cyc)]
+        order = order * len(cyc) // math.gcd(order, len(cyc))
+    tot, cur = {}, prof
+    for _ in range(order):
+        img = rename_profile(vtype, cur, lambda c: sigma.get(c, c))
+        for k, w in img.items():
+            tot[k] = tot.get(k, 0) + w
+        cur = [[unkey(vtype, k), common.jq(w)] for k, w in img.items()]
+    out = [[unkey(vtype, k), common.jq(w)] for k, w in tot.items()]
+    rng.shuffle(out)
+    return out
+
+
+def gen_random(rng, e):
+    return evalreg.gen_profile(rng, e['vtype'], shared=(e['needs'] != 'noshared'), small=(e['needs'] == 'small'))
+
+
+def gen_symmetric(rng, e):
+    return symmetrise(rng, e['vtype'], gen_random(rng, e))
 
 
 def total_weight(vtype, prof):
@@ -42,14 +135,14 @@ def enc_sel(val):
     return sx([list(x) if isinstance(x, tuple) else x for x in val])
 
 
-def sweep(ctx, stream, count, rng):
-    reg = evalreg.registry()
+def sweep(ctx, stream, count, rng, gen=gen_random):
+    reg = registry()
     names = list(reg)
     pending = []        # (case, cands, n, val)
     bad = n_cases = 0
     for _ in range(count):
         e = reg[rng.choice(names)]
-        prof = evalreg.gen_profile(rng, e['vtype'], shared=(e['needs'] != 'noshared'), small=(e['needs'] == 'small'))
+        prof = gen(rng, e)
         if total_weight(e['vtype'], prof) <= 0:
             continue
         cands = evalreg.candidates_of(e['vtype'], prof)
@@ -97,12 +190,31 @@ def sweep(ctx, stream, count, rng):
         if v[1] != 1:
             bad += 1
             ctx.checker_false += 1
-            case['_class'] = 'shape'
+            case['_class'] = shape_class(c, n, val)
             ctx.report(stream, case, str(val), 'sel_shape_ok = false', '%s: selection %s does not have the shape of %d seats over candidates %s'
                        % (e['name'], val, n, c), known_class=known_class)
         elif len(ctx.samples) < 3 and any(isinstance(x, tuple) for x in val):
             ctx.samples.append(dict(stream=stream, case=case, impl=str(val), model='sel_shape_ok = true'))
     ctx.streams[stream] = dict(cases=n_cases, deviations=bad)
+
+
+def shape_class(cands, n, val):
+    """class of a rejected selection.  'shape:tie-once': distinct plain winners of the votes followed or preceded by ONE
+    tie object, listed once, that stands for the r >= 2 seats the plain winners leave open, has more than r members and
+    is disjoint from the winners - i.e. the selection becomes well-shaped by repeating the tie r times (the recorded
+    witness shape of C08-allocated-score-shape).  'shape:short': fewer than n entries, all of them distinct plain
+    candidates of the votes, no tie object (the recorded shape of the Bucklin / Oklahoma / STAR short lists).
+    Everything else (a tie no larger than the seats it contests, a repeated candidate, a stranger, a tie beside a
+    missing entry, ...) is plain 'shape' and matches no known finding."""
+    plain = [x for x in val if not isinstance(x, tuple)]
+    ties = [x for x in val if isinstance(x, tuple)]
+    r = n - len(plain)
+    if (len(ties) == 1 and r >= 2 and len(set(plain)) == len(plain) and all(x in cands for x in plain)
+            and len(set(ties[0])) == len(ties[0]) > r and all(x in cands for x in ties[0]) and not set(ties[0]) & set(plain)):
+        return 'shape:tie-once'
+    if not ties and len(val) < n and len(set(plain)) == len(plain) and all(x in cands for x in plain):
+        return 'shape:short'
+    return 'shape'
 
 
 def judge_error(e, r, case):
@@ -154,16 +266,11 @@ def lr_capbranch(c):
 
 def known_class(c, io, mo):
     ev, cls = c.get('evaluator', ''), c.get('_class', '')
-    if ev == 'allocated_score' and cls == 'shape':
+    if ev == 'allocated_score' and cls == 'shape:tie-once':
         return 'C08-allocated-score-shape'
-    if ev in ('bucklin', 'oklahoma') and cls == 'shape':
-        import ast
-        try:
-            val = ast.literal_eval(io)[0][1] if io.startswith('((') else ast.literal_eval(io)
-        except Exception:   # noqa
-            val = None
+    if ev in ('bucklin', 'oklahoma') and cls == 'shape:short':
         return 'C08-preference-addition-short'
-    if ev == 'star' and cls == 'shape':
+    if ev == 'star' and cls == 'shape:short':
         return 'C08-star-short'
     if ev.startswith('lr_') and cls in ('crash:ZERODIV', 'nonpositive') and lr_capbranch(c):
         return 'C08-lr-capbranch'
@@ -200,7 +307,7 @@ def coverage(ctx):
     import votelib.evaluate.cardinal as card, votelib.evaluate.approval as appr, votelib.evaluate.condorcet as cd
     import votelib.evaluate.threshold as thr, votelib.evaluate.auxiliary as aux, votelib.evaluate.openlist as ol
     used = set()
-    for e in evalreg.registry().values():
+    for e in registry().values():
         ev = e['make']()
         for o in (ev, getattr(ev, 'evaluator', None), getattr(ev, '_inner', None)):
             if o is not None:
@@ -222,7 +329,7 @@ def corpus():
 
 
 def replay_case(ctx, c, stream):
-    e = evalreg.registry()[c['evaluator']]
+    e = registry()[c['evaluator']]
     prof, seats = c['profile'], c['n']
     cands = evalreg.candidates_of(e['vtype'], prof)
     ctx.evaluations += 1
@@ -233,7 +340,7 @@ def replay_case(ctx, c, stream):
         if kind == 'sel':
             o = common.run_model(['%d (%s %d %s)' % (BLOCK['C08'], sx(cands), seats if (e['seats'] and e['exact']) else len(val), enc_sel(val))])[0]
             if common.parse_sx(o) != [0, 1]:
-                c['_class'] = 'shape'
+                c['_class'] = shape_class(cands, seats if (e['seats'] and e['exact']) else len(val), val)
                 why = 'selection %s does not have the shape of %d seats over candidates %s' % (val, seats, cands)
         else:
             why = judge_dist(e, cands, seats, val, c)
@@ -248,6 +355,7 @@ def explore(ctx, widen=1):
         replay_case(ctx, c, 'corpus')
     model_shape(ctx, 'model-shape', ctx.n(300, 3000), rng)
     sweep(ctx, 'sweep', ctx.n(5000, 80000) * widen, rng)
+    sweep(ctx, 'sym-sweep', ctx.n(5000, 60000) * widen, rng, gen_symmetric)
     coverage(ctx)
 
 
